@@ -32,6 +32,7 @@ type zzSess struct {
 	event    int
 	at       int // message index (counted per direction) at which the event happens
 	at2      int // second pause (C18, PAUSES=2); -1 none
+	pendingStop int // C10: 1 = plain stop, 2 = stop-and-delete still to be chosen in the (paused) question
 	everPaused bool
 	nToC     int
 	nToS     int
@@ -46,6 +47,8 @@ type zzSess struct {
 
 var zzPauseTicks int
 var zzPauseKind int
+var zzPauseOwn bool       // C18: the pause begins just before the client's own k-th message instead of the server's
+var zzStopAfterPause bool // C10: as in the real client, the stop choice is made while the transfer is paused for the question
 
 type zzSessToClient struct{ s *zzSess } // the server's writer
 type zzSessToServer struct{ s *zzSess } // the wrapper's remote-side writer
@@ -58,7 +61,16 @@ func (s *zzSess) fire() {
 	switch s.event {
 	case zzEvStopClient, zzEvStopDeleteClient:
 		if t := s.f.transfer.Load(); t != nil {
-			t.stopTransferringFiles(s.event == zzEvStopDeleteClient)
+			if zzStopAfterPause {
+				t.pauseTransferringFiles() // Ctrl-C: the transfer pauses while the user is asked
+				s.paused = t
+				s.pendingStop = 1
+				if s.event == zzEvStopDeleteClient {
+					s.pendingStop = 2
+				}
+			} else {
+				t.stopTransferringFiles(s.event == zzEvStopDeleteClient)
+			}
 		}
 	case zzEvStopServer:
 		s.V.stopTransferringFiles(false)
@@ -96,7 +108,7 @@ func (w *zzSessToClient) Write(p []byte) (int, error) {
 	copy(c, p)
 	switch s.event {
 	case zzEvStopClient, zzEvStopDeleteClient, zzEvStopServer, zzEvPauseClient:
-		if idx == s.at {
+		if idx == s.at && !(s.event == zzEvPauseClient && zzPauseOwn) {
 			s.fire()
 		}
 	case zzEvSilenceToClient:
@@ -131,6 +143,9 @@ func (w *zzSessToServer) Write(p []byte) (int, error) {
 	s.wire = append(s.wire, p...)
 	c := make([]byte, len(p))
 	copy(c, p)
+	if s.event == zzEvPauseClient && zzPauseOwn && idx == s.at {
+		s.fire() // the user pauses while this message of the client is on its way out
+	}
 	switch s.event {
 	case zzEvSilenceToServer:
 		if idx >= s.at {
@@ -304,14 +319,27 @@ func zzRunSession(upload bool, event, maxAt int, timeout int) (*zzSess, *zzSessR
 		}
 	}
 	resumeIfPaused()
+	chooseStop := func() {
+		if s.pendingStop != 0 && s.paused != nil {
+			verifAdvanceMs(300) // the user reads the question
+			verifQuiesce()
+			s.paused.stopTransferringFiles(s.pendingStop == 2)
+			s.pendingStop = 0
+			verifQuiesce()
+		}
+	}
+	chooseStop()
 	for i := 0; i < verifBound("TICKS") && !(res.serverDone && s.f.transfer.Load() == nil); i++ {
 		if event == zzEvPauseClient && zzPauseKind == 3 {
 			verifAdvanceMs(120) // time passes in small steps: sleepers wake, no fresh time-out runs out
+		} else if verifBoundOr("FINE", 0) == 1 {
+			verifAdvanceMs(200) // real deadlines: a 0.5 s clean-up wait ends before a time-out of seconds does
 		} else {
 			verifAdvanceTime()
 		}
 		verifQuiesce()
 		resumeIfPaused()
+		chooseStop()
 	}
 	res.clientClear = s.f.transfer.Load() == nil
 	if res.hadOld && !res.overwrite {
@@ -337,7 +365,8 @@ func zzSessFileIntact(res *zzSessResult) bool {
 func zzH_C10_session() {
 	upload := verifNondetBool()
 	event := verifNondetRange(zzEvStopClient, zzEvStopServer)
-	s, res := zzRunSession(upload, event, verifBound("MSGS"), 1)
+	zzStopAfterPause = verifBoundOr("PAUSEFIRST", 0) == 1 && event != zzEvStopServer
+	s, res := zzRunSession(upload, event, verifBound("MSGS"), verifBoundOr("TIMEOUT", 1))
 	verifAssert(res.serverDone, "the server side did not end after the stop")
 	verifAssert(res.clientClear, "the client side did not end after the stop")
 	destOnServer := upload
@@ -465,6 +494,7 @@ func zzH_C18_session() {
 	if kind >= 2 {
 		timeout = 1
 	}
+	zzPauseOwn = verifBoundOr("OWN", 0) == 1
 	s, res := zzRunSession(upload, zzEvPauseClient, verifBound("MSGS"), timeout)
 	if !res.serverDone || !res.clientClear {
 		verifAssertNoLiveThreadsExcept("a side hangs after a pause/resume", "wrapOutput")
